@@ -1,7 +1,7 @@
 -------------------------------- MODULE MC_Measure --------------------------------
 (* Exhaustive: every n <= NMax, every non-empty ascending qubit subset, every member of a structured state family
    (basis states, products of |+-> / |+-i>, GHZ, W, graph states, states with zero-probability outcomes, a Clifford+T
-   state).  One state per (n, family member, subset); it carries the Born marginals and, for every outcome in the
+   state, states with a nearly certain outcome).  One state per (n, family member, subset); it carries the Born marginals and, for every outcome in the
    support, the projected vector.  Invariants = the measurement axioms on the model. *)
 EXTENDS Measure, TLC
 CONSTANT NMax
@@ -21,10 +21,14 @@ Prep(n, fam) ==
     [] fam = "graphstar" -> Each(n, LAMBDA q : G("H", <<q>>)) \o [q \in 1..(n - 1) |-> GC("cz", 1, q + 1)]
     [] fam = "zeroprob" -> <<G("H", <<n>>)>> \o (IF n > 1 THEN <<GC("cnot", n, 1)>> ELSE <<>>)    \* (|0..0> + |1..1>) on first/last
     [] fam = "cliffT" -> Each(n, LAMBDA q : G("H", <<q>>)) \o <<G("T", <<1>>)>> \o (IF n > 1 THEN <<GC("cnot", 1, n), GP("ry", n, 1), G("T", <<n>>), GP("rx", 1, 3)>> ELSE <<GP("rx", 1, 1)>>)
-Fams == {"zero", "basis", "plus", "mixedprod", "ghz", "graphline", "graphstar", "zeroprob", "cliffT", "W"}
+Fams == {"zero", "basis", "plus", "mixedprod", "ghz", "graphline", "graphstar", "zeroprob", "cliffT", "W", "near12", "near14"}
+\* nearly certain outcomes: amplitude 2^k on |0..0> and i on every single-excitation state (unnormalised): the outcome 0..0 of any subset
+\* has probability 1 - m / (4^k + n) with m = number of measured qubits - 6e-8 m for k = 12, 3.7e-9 m for k = 14: NOT certain, so the
+\* state must still be projected and renormalised, and the other outcomes stay in the support
+NearVec(n, k) == [r \in 1..2^n |-> IF r = 1 THEN <<2^k, 0, 0, 0>> ELSE IF \E q \in 1..n : r - 1 = 2^(n - q) THEN OI ELSE OZero]
 \* W state with integer amplitudes (unnormalised): sum of the single-excitation basis states
 WVec(n) == [r \in 1..2^n |-> IF \E q \in 1..n : r - 1 = 2^(n - q) THEN OOne ELSE OZero]
-StateOf(n, fam) == IF fam = "W" THEN WVec(n) ELSE Run(Prep(n, fam), Base(n), n).v
+StateOf(n, fam) == IF fam = "W" THEN WVec(n) ELSE IF fam = "near12" THEN NearVec(n, 12) ELSE IF fam = "near14" THEN NearVec(n, 14) ELSE Run(Prep(n, fam), Base(n), n).v
 Configs == {[n |-> n, fam |-> f, mask |-> m] : n \in 1..NMax, f \in Fams, m \in 1..(2^NMax - 1)}
 MkObs(n, v, S) == [psi |-> v, n2 |-> ONorm2(v), marg |-> Marg(v, S, n),
                    post |-> [o \in 1..2^Cardinality(S) |-> IF Marg(v, S, n)[o] # OZero THEN Project(v, S, o - 1, n) ELSE <<>>]]
